@@ -88,6 +88,7 @@ type tracked struct {
 	label      string
 	cmd        erpc.CallCmd
 	issued     chan struct{} // closed when AsyncCall returned
+	noCmd      bool          // AsyncCall returned no command at all
 	deliveries int32
 }
 
@@ -139,8 +140,12 @@ func (m *monitor) call(sess erpc.Session, label, route string, arg, result inter
 	go func() {
 		cmd := sess.AsyncCall(route, arg, result, m.ch, settings...)
 		m.mu.Lock()
-		t.cmd = cmd
-		m.byCmd[cmd] = t
+		if cmd == nil {
+			t.noCmd = true
+		} else {
+			t.cmd = cmd
+			m.byCmd[cmd] = t
+		}
 		m.mu.Unlock()
 		close(t.issued)
 	}()
@@ -187,6 +192,10 @@ func evaluate(m *monitor, closers []*closer, dump []quiesce.G) []viol {
 	for _, t := range calls {
 		if !isDone(t.issued) {
 			vs = append(vs, viol{"asynccall-never-returned", fmt.Sprintf("%s: AsyncCall itself is still blocked at quiescence: %v", t.label, quiesce.Brief(quiesce.Blocked(dump, "github.com/henrylee2cn/erpc/v6.(*session).AsyncCall")))})
+			continue
+		}
+		if t.noCmd {
+			vs = append(vs, viol{"asynccall-returned-no-command", fmt.Sprintf("%s: AsyncCall returned a nil CallCmd: the caller has nothing that ever completes", t.label)})
 			continue
 		}
 		if !isDone(t.cmd.Done()) {
@@ -616,6 +625,11 @@ func (p *panicky) UnmarshalJSON(b []byte) error {
 	return nil
 }
 
+// panicArg is an argument type whose JSON encoder panics (a bug in application code reached while the call is written).
+type panicArg struct{ p *int }
+
+func (a *panicArg) MarshalJSON() ([]byte, error) { return []byte(fmt.Sprint(*a.p)), nil }
+
 // ---------------- (c) hostile replies ----------------
 
 var hostileKinds = []string{"good", "codec0-body", "unknown-codec", "undecodable", "wrong-seq", "negative-seq", "dup-one-write", "dup-delayed", "truncated", "status", "oversize",
@@ -906,6 +920,13 @@ func runChaos(e *env, idx int, r *core.Rand) {
 			fctx, cancel := context.WithTimeout(context.Background(), time.Hour)
 			defer cancel()
 			settings = append(settings, erpc.WithContext(fctx))
+		}
+		if r.Intn(8) == 0 {
+			// the argument's encoder panics while the call is written: the call completes (with an error) like any other
+			settings[0] = erpc.WithBodyCodec(codec.ID_JSON)
+			m.call(sess, label+" (argument encoder panics)", e.routes["typed"], &panicArg{}, new(tok.Arg), settings...)
+			core.Add("calls_whose_argument_encoder_panics", 1)
+			continue
 		}
 		m.call(sess, label, e.routes["echo"], []byte(fmt.Sprintf("c%d", i)), &outs[i], settings...)
 	}
